@@ -95,6 +95,7 @@ func main() {
 		panicOK  = flag.Bool("panicok", false, "uncaught panics are not violations")
 		revMap   = flag.Bool("revmap", false, "iterate maps in reverse insertion order")
 		mapRot   = flag.Bool("maprotate", false, "fork over the starting point of every map iteration")
+		unwViol  = flag.Bool("unwindviol", false, "report an exceeded unwinding bound as a violation (non-termination)")
 		noPort   = flag.Bool("noportfolio", false, "do not retry unknown solver answers with fresh solvers in other configurations")
 		maxViol  = flag.Int("maxviol", 40, "stop exploring after this many violating paths outside the known findings (0 = never)")
 		nomerge  = flag.Bool("nomerge", false, "disable function-level merging")
@@ -123,7 +124,7 @@ func main() {
 		return
 	}
 	t0 := time.Now()
-	conf := Config{Unwind: *unwind, MaxSteps: *maxSteps, MaxDepth: 400, MaxPaths: *maxPaths, MaxViolPaths: *maxViol, NoPortfolio: *noPort, MaxAlloc: 1 << 22,
+	conf := Config{Unwind: *unwind, MaxSteps: *maxSteps, MaxDepth: 400, MaxPaths: *maxPaths, MaxViolPaths: *maxViol, NoPortfolio: *noPort, UnwindViolation: *unwViol, MaxAlloc: 1 << 22,
 		MaxIteTable: 4096, MaxConcretize: 300, Workers: *workers, SolverKind: *solver, TimeoutMs: *timeout,
 		Trace: *trace, Verbose: *verbose, MapOrderReversed: *revMap, MapRotate: *mapRot, NoMerge: *nomerge, Bounds: map[string]int{},
 		KnownOpen: map[string]bool{}, PanicOK: *panicOK, SolverLog: *slog, NoDomains: *nodom}
@@ -372,6 +373,13 @@ func main() {
 				// recorded as violation already
 			}
 		case "stackoverflow":
+		case "unwind":
+			if conf.UnwindViolation && strings.HasPrefix(r.Msg, "loop at") {
+				break // recorded as a violation (non-termination)
+			}
+			if len(o.Problems) < 20 {
+				o.Problems = append(o.Problems, r.Status+": "+r.Msg)
+			}
 		default:
 			if len(o.Problems) < 20 {
 				o.Problems = append(o.Problems, r.Status+": "+r.Msg)
